@@ -313,6 +313,22 @@ fn enum_make_a(tier: Tier, i: u64) -> Case {
     Case { g: raw_explicit(dir, n, mask, 0), enc: (i % 6) as u8, salt: (i % 251) as u8, root: 0 }
 }
 
+/// libFuzzer entry / from-bytes generators: bring decoded cases into the domains of the strategies
+pub fn d_fuzz_domain(c: &mut Case) -> bool {
+    c.g.sanitize(1, 13, 36, Some(true));
+    true
+}
+pub fn a_fuzz_domain(c: &mut Case) -> bool {
+    c.g.sanitize(0, 14, 30, Some(false));
+    true
+}
+pub fn d_bytes_strategy(_tier: Tier) -> BoxedStrategy<Case> {
+    decoded_strategy(d_fuzz_domain)
+}
+pub fn a_bytes_strategy(_tier: Tier) -> BoxedStrategy<Case> {
+    decoded_strategy(a_fuzz_domain)
+}
+
 pub fn property() -> Property {
     Property {
         id: "C16",
@@ -320,8 +336,8 @@ pub fn property() -> Property {
         assumptions: &[],
         both_profiles: false,
         subs: vec![
-            sub("dominators/simple_fast", 3_000_000, 50_000_000, d_strategy, d_run),
-            sub("articulation_points/brute", 3_000_000, 50_000_000, a_strategy, a_run),
+            sub_fuzz("dominators/simple_fast", 3_000_000, 50_000_000, d_strategy, d_run, d_fuzz_domain), sub("dominators/simple_fast-from-bytes", 600_000, 10_000_000, d_bytes_strategy, d_run),
+            sub_fuzz("articulation_points/brute", 3_000_000, 50_000_000, a_strategy, a_run, a_fuzz_domain), sub("articulation_points/brute-from-bytes", 600_000, 10_000_000, a_bytes_strategy, a_run),
             sub_enum("dominators/all-small-digraphs", enum_count_d, enum_make_d, d_run),
             sub_enum("dominators/all-loopfree-digraphs-on-5-nodes", enum_count_d5, enum_make_d5, d_run),
             sub_enum("articulation_points/all-small-graphs", enum_count_a, enum_make_a, a_run),
